@@ -34,6 +34,18 @@ type Verifier struct {
 	fns        map[string]*ssa.Function
 	allPkgs    map[string]*types.Package
 	guardLockFn map[string]string // heap base name of a guarded field -> sub-object function of its lock field
+	lockInv     map[string]*lockInvInfo // sub-object function of a lock field -> its monitor invariant
+}
+
+type lockInvInfo struct {
+	ownerT  types.Type
+	inv     *Clause
+	guarded []guardedField // fields protected by this lock
+}
+
+type guardedField struct {
+	base string
+	t    types.Type
 }
 
 func NewVerifier(repo, specDir string) (*Verifier, error) {
@@ -82,6 +94,7 @@ func NewVerifier(repo, specDir string) (*Verifier, error) {
 	// lock discipline declarations: decl <pkg.Type.field> guarded_by <lockfield>
 	v.guardLockFn = map[string]string{}
 	declsByBase := map[string]string{}
+	v.C.DeclsRaw = v.C.Decls
 	for k, d := range v.C.Decls {
 		i := strings.LastIndex(k, ".")
 		if i < 0 {
@@ -101,6 +114,35 @@ func NewVerifier(repo, specDir string) (*Verifier, error) {
 		v.guardLockFn[base] = "sub_" + structName(t) + "_" + fs[1]
 	}
 	v.C.Decls = declsByBase
+	v.lockInv = map[string]*lockInvInfo{}
+	for k, inv := range v.C.LockInvs {
+		i := strings.LastIndex(k, ".")
+		t := v.resolveType(k[:i], nil)
+		if t == nil {
+			return nil, fmt.Errorf("bad lockinv %s", k)
+		}
+		fn := "sub_" + structName(t) + "_" + k[i+1:]
+		v.lockInv[fn] = &lockInvInfo{ownerT: t, inv: inv}
+	}
+	// fields guarded by each lock
+	for k, d := range v.C.DeclsRaw {
+		i := strings.LastIndex(k, ".")
+		t := v.resolveType(k[:i], nil)
+		fs := strings.Fields(d)
+		if t == nil || len(fs) != 2 {
+			continue
+		}
+		fn := "sub_" + structName(t) + "_" + fs[1]
+		if fs[0] != "guarded_by" {
+			continue // access_under: lock discipline only, no interference model
+		}
+		li := v.lockInv[fn]
+		if li == nil {
+			li = &lockInvInfo{ownerT: t}
+			v.lockInv[fn] = li
+		}
+		li.guarded = append(li.guarded, guardedField{base: fieldBase(t, k[i+1:]), t: fieldType(t, k[i+1:])})
+	}
 	// SMT prelude with spec functions
 	if b, err := os.ReadFile(filepath.Join(specDir, "prelude.smt2")); err == nil {
 		v.smtPrelude = string(b)
